@@ -120,6 +120,10 @@ func C01(r *report.Report, tier string) {
 			// descending map iteration: the other order of blocks inside one log append and of lock releases
 			jobs = append(jobs, crashArg{Prop: "C01", DiskSize: 3000, Setup: crashSetup, Ops: h, Cap: cap, MapDesc: true, Probe: crashProbe})
 		}
+		if tier == "thorough" && len(h) == 2 {
+			// an inode cache of two: the second operation finds the first one's inodes evicted (re-read through the journal)
+			jobs = append(jobs, crashArg{Prop: "C01", DiskSize: 3000, Setup: crashSetup, Ops: h, Cap: cap, ICacheSz: 2, Probe: crashProbe})
+		}
 	}
 	runCrashJobs(r, jobs, map[string]bool{"C01": true})
 	r.Add("states", int64(r.NDistinct()))
